@@ -854,6 +854,9 @@ func (m *Machine) call(a *activation, in *ssa.Call) {
 		}
 		return
 	}
+	if callee != nil && m.getUint(a, in, callee, args) {
+		return
+	}
 	if callee != nil && pureExternal(callee) {
 		m.set(in, externalResult(callee, in))
 		return
@@ -861,6 +864,7 @@ func (m *Machine) call(a *activation, in *ssa.Call) {
 	if callee != nil && m.putUint(a, callee, args) {
 		return
 	}
+
 	for _, x := range args {
 		a.cur.havocReach(x, map[int]bool{})
 	}
@@ -868,6 +872,41 @@ func (m *Machine) call(a *activation, in *ssa.Call) {
 		a.cur.havocReach(b, map[int]bool{})
 	}
 	m.set(in, externalResult(callee, in))
+}
+
+// getUint models (encoding/binary.bigEndian).UintN on a slice whose first N/8 octets are known constants:
+// the big-endian value; otherwise the result is unknown (nothing is written either way).
+func (m *Machine) getUint(a *activation, in ssa.Value, callee *ssa.Function, args []Val) bool {
+	n := 0
+	switch callee.String() {
+	case "(encoding/binary.bigEndian).Uint16":
+		n = 2
+	case "(encoding/binary.bigEndian).Uint32":
+		n = 4
+	case "(encoding/binary.bigEndian).Uint64":
+		n = 8
+	default:
+		return false
+	}
+	if len(args) != 2 {
+		return false
+	}
+	src := args[1]
+	if src.K != Slice || src.Off < 0 || n > 4 {
+		m.set(in, U)
+		return true
+	}
+	var v int64
+	for i := 0; i < n; i++ {
+		c := a.cur.load(Val{K: Addr, Obj: src.Obj, Path: fmt.Sprintf("%s[%d]", src.Path, src.Off+int64(i))}, types.Typ[types.Uint8])
+		if c.K != Int {
+			m.set(in, U)
+			return true
+		}
+		v = v<<8 | (c.I & 0xff)
+	}
+	m.set(in, IntV(v))
+	return true
 }
 
 // putUint models (encoding/binary.bigEndian).PutUintN: it writes exactly the
